@@ -509,6 +509,8 @@ class Branches:
         """For a switch on an enum discriminant: {variant_name: target}, otherwise target,
         adt path, scrutinee terms.  None if not a discriminant switch."""
         t = self.b.blocks[blk]["term"]
+        if t["k"] != "switch":
+            return None
         d = t["discr"]
         if d.get("k") not in ("copy", "move") or d["p"]:
             return None
@@ -541,6 +543,8 @@ class Branches:
     def bool_edges(self, blk):
         """For a switch on a bool: (true_target, false_target) or None."""
         t = self.b.blocks[blk]["term"]
+        if t["k"] != "switch":
+            return None
         d = t["discr"]
         if d.get("ty") != "bool":
             return None
@@ -581,6 +585,11 @@ class CallGraph:
         for b in self.nodes.values():
             if b.impl_trait and b.item_name:
                 self.trait_impls[(b.impl_trait, b.item_name)].append(b.deff)
+        # (trait, impl self type) -> methods, for callbacks from external generic code
+        self.impl_methods = defaultdict(list)
+        for b in self.nodes.values():
+            if b.impl_trait and b.impl_self and b.kind == "method":
+                self.impl_methods[b.impl_trait].append((b.impl_self, b.deff))
         self.edges = defaultdict(set)
         self.edge_sites = defaultdict(list)
         self.external = defaultdict(set)  # body -> external callee names
@@ -651,8 +660,33 @@ class CallGraph:
                 for d in impls:
                     self.edges[name].add(d)
                     self.edge_sites[(name, d)].append(blk)
+                self._callbacks(name, t)
                 return
         self.external[name].add(res or callee)
+        self._callbacks(name, t)
+
+    STD_SUPERS = {
+        "std::cmp::Ord": ["std::cmp::PartialOrd", "std::cmp::Eq", "std::cmp::PartialEq"],
+        "std::cmp::Eq": ["std::cmp::PartialEq"],
+        "std::cmp::PartialOrd": ["std::cmp::PartialEq"],
+        "std::marker::Copy": ["std::clone::Clone"],
+        "std::error::Error": ["std::fmt::Debug", "std::fmt::Display"],
+        "std::iter::DoubleEndedIterator": ["std::iter::Iterator"],
+        "std::iter::ExactSizeIterator": ["std::iter::Iterator"],
+    }
+
+    def _callbacks(self, name, t):
+        """An external generic callee may call back into local trait impls named by
+        its instantiated trait obligations (e.g. serde_json::from_str::<Variable>
+        -> <Variable as Deserialize>::deserialize; slice::sort -> Ord for Variable)."""
+        for self_ty, tr in t.get("obligations", []) + t.get("resolved_obligations", []):
+            trs = [tr] + self.STD_SUPERS.get(tr, [])
+            for tr2 in trs:
+                for impl_self, meth in self.impl_methods.get(tr2, ()):
+                    core = re.sub(r"<.*$", "", impl_self).lstrip("&").strip()
+                    core = core.replace("'a ", "").replace("mut ", "")
+                    if impl_self == "T" or impl_self == "F" or (core and core in self_ty):
+                        self.edges[name].add(meth)
 
     def reachable_from(self, roots):
         seen = set()
